@@ -28,6 +28,11 @@ __all__ = ['StreamingDecoder', 'Decoder', 'decode']
 
 LOG = debug.registerLoggee(__name__, flags=debug.DEBUG_DECODER)
 
+# Verification hook: a list receiving one tuple per state of the single-item
+# decoder's state machine. Off (None) unless PYASN1_VERIF_TRACE is set in the
+# environment when this module is imported.
+TRACE = [] if os.environ.get('PYASN1_VERIF_TRACE') else None
+
 noValue = base.noValue
 
 SubstrateUnderrunError = error.SubstrateUnderrunError
@@ -1572,6 +1577,10 @@ class SingleItemDecoder(object):
 
         allowEoo = options.pop('allowEoo', False)
 
+        if TRACE is not None:
+            cid = len(TRACE)
+            TRACE.append((cid, 'enter', state, allowEoo, asn1Spec, tagSet, substrateFun))
+
         if LOG:
             LOG('decoder called at scope %s with state %d, working with up '
                 'to %s octets of substrate: '
@@ -1587,6 +1596,8 @@ class SingleItemDecoder(object):
             if eoo_candidate == EOO_SENTINEL:
                 if LOG:
                     LOG('end-of-octets sentinel found')
+                if TRACE is not None:
+                    TRACE.append((cid, 'eoo'))
                 yield eoo.endOfOctets
                 return
 
@@ -1605,6 +1616,8 @@ class SingleItemDecoder(object):
         while state is not stStop:
 
             if state is stDecodeTag:
+                if TRACE is not None:
+                    TRACE.append((cid, 'state', state))
                 # Decode tag
                 isShortTag = True
 
@@ -1675,6 +1688,8 @@ class SingleItemDecoder(object):
                     LOG('tag decoded into %s, decoding length' % tagSet)
 
             if state is stDecodeLength:
+                if TRACE is not None:
+                    TRACE.append((cid, 'state', state))
                 # Decode length
                 for firstOctet in readFromStream(substrate, 1, options):
                     if isinstance(firstOctet, SubstrateUnderrunError):
@@ -1723,6 +1738,8 @@ class SingleItemDecoder(object):
                     LOG('value length decoded into %d' % length)
 
             if state is stGetValueDecoder:
+                if TRACE is not None:
+                    TRACE.append((cid, 'state', state, tagSet, length))
                 if asn1Spec is None:
                     state = stGetValueDecoderByTag
 
@@ -1745,6 +1762,8 @@ class SingleItemDecoder(object):
             # from the wire.
             #
             if state is stGetValueDecoderByTag:
+                if TRACE is not None:
+                    TRACE.append((cid, 'state', state))
                 try:
                     concreteDecoder = tagMap[tagSet]
 
@@ -1771,6 +1790,8 @@ class SingleItemDecoder(object):
                     debug.scope.push(concreteDecoder is None and '?' or concreteDecoder.protoComponent.__class__.__name__)
 
             if state is stGetValueDecoderByAsn1Spec:
+                if TRACE is not None:
+                    TRACE.append((cid, 'state', state))
 
                 if asn1Spec.__class__ is tagmap.TagMap:
                     try:
@@ -1831,11 +1852,16 @@ class SingleItemDecoder(object):
                     concreteDecoder = None
                     state = stTryAsExplicitTag
 
+                if TRACE is not None:
+                    TRACE.append((cid, 'spec', chosenSpec, concreteDecoder))
+
                 if LOG:
                     LOG('codec %s chosen by ASN.1 spec, decoding %s' % (state is stDecodeValue and concreteDecoder.__class__.__name__ or "<none>", state is stDecodeValue and 'value' or 'as explicit tag'))
                     debug.scope.push(chosenSpec is None and '?' or chosenSpec.__class__.__name__)
 
             if state is stDecodeValue:
+                if TRACE is not None:
+                    TRACE.append((cid, 'state', state, concreteDecoder))
                 if not options.get('recursiveFlag', True) and not substrateFun:  # deprecate this
                     substrateFun = lambda a, b, c: (a, b[:c])
 
@@ -1871,6 +1897,8 @@ class SingleItemDecoder(object):
                 break
 
             if state is stTryAsExplicitTag:
+                if TRACE is not None:
+                    TRACE.append((cid, 'state', state))
                 if (tagSet and
                         tagSet[0].tagFormat == tag.tagFormatConstructed and
                         tagSet[0].tagClass != tag.tagClassUniversal):
@@ -1886,6 +1914,8 @@ class SingleItemDecoder(object):
                     LOG('codec %s chosen, decoding %s' % (concreteDecoder and concreteDecoder.__class__.__name__ or "<none>", state is stDecodeValue and 'value' or 'as failure'))
 
             if state is stDumpRawValue:
+                if TRACE is not None:
+                    TRACE.append((cid, 'state', state))
                 concreteDecoder = self.defaultRawDecoder
 
                 if LOG:
@@ -1894,6 +1924,8 @@ class SingleItemDecoder(object):
                 state = stDecodeValue
 
             if state is stErrorCondition:
+                if TRACE is not None:
+                    TRACE.append((cid, 'state', state))
                 raise error.PyAsn1Error(
                     '%s not in asn1Spec: %r' % (tagSet, asn1Spec)
                 )
@@ -1901,6 +1933,9 @@ class SingleItemDecoder(object):
         if LOG:
             debug.scope.pop()
             LOG('decoder left scope %s, call completed' % debug.scope)
+
+        if TRACE is not None:
+            TRACE.append((cid, 'exit', value))
 
         yield value
 
